@@ -752,6 +752,14 @@ class Retrieve:
         block, salt = block_and_salt
         _assert(isinstance(block, bytes), (block, salt))
 
+        if self._version != MDMF_VERSION and salt != self.verinfo[2]:
+            # The SDMF block hash does not cover the IV, so the IV this
+            # share gave us must be the one in the signed prefix of the
+            # version we are retrieving.
+            raise CorruptShareError(server,
+                                    reader.shnum,
+                                    "IV does not match the signed version")
+
         blockhashes = dict(enumerate(blockhashes))
         self.log("the reader gave me the following blockhashes: %s" % \
                  list(blockhashes.keys()))
